@@ -738,40 +738,58 @@ def sorter_slot(rep, lib, rid="C08-SLOT"):
     for label, present, space, want in scen:
         selfv = [None] * len(fn)
         selfv[si] = some(("i", space)) if space is not None else NONE
-        ev = []
+        EVK = -21      # per-path event list, carried in the environment
 
         def model(c, av, envv, pe, present=present):
             n = c.name or ""
             if c.trait == common.GET_TRAIT:
                 return (True, some(("i", 42)) if present else NONE)
             if "VecDeque" in n and n.rsplit("::", 1)[-1] in ("push_front", "push_back"):
-                ev.append("push")
+                envv[EVK] = envv.get(EVK, ("ev",)) + ("push",)
                 return (True, ("adt", 0, ()))
             if n.endswith("SortProcess::remove_last_item"):
-                ev.append("evict")
+                envv[EVK] = envv.get(EVK, ("ev",)) + ("evict",)
                 return (True, ("adt", 0, ()))
             return None
         try:
-            outs = run_method(lib, b, ("adt", 0, tuple(selfv)), model, eq_ok=common.derived_eq_ok(lib))
+            outs = run_method(lib, b, ("adt", 0, tuple(selfv)), model, eq_ok=common.derived_eq_ok(lib), observe=[EVK])
         except RuntimeError:
             outs = []
         key = "process[%s]" % label
-        if len(outs) != 1 or outs[0][0] is None:
+        if not outs or any(o[0] is None for o in outs):
             r.bad(key, "the effect is not determined by (key present, space_left): %d outcomes (unrecognised idiom)"
                   % len(outs), b.where())
             continue
-        s, rv = outs[0]
-        sp = s[2][si]
-        got_space = None if sp == NONE else (sp[2][0][1] if sp and sp[0] == "adt" and sp[1] == 1 and sp[2][0] else "?")
-        got = dict(push=ev.count("push"), evict=ev.count("evict"), space=got_space)
-        order_ok = ev.index("push") < ev.index("evict") if ("push" in ev and "evict" in ev) else True
-        if got != want or rv != OK(CONT) or not order_ok:
-            r.bad(key, "stored %d time(s), evicted %d, budget afterwards %s, answer %s; expected stored %d, evicted %d, "
-                  "budget %s, Continue%s" % (got["push"], got["evict"], got["space"], "Continue" if rv == OK(CONT) else rv,
-                                             want["push"], want["evict"], want["space"],
-                                             "" if order_ok else " (eviction must follow the insertion)"), b.where())
+        problems = []
+        full = []
+        for s_, rv, notes in outs:
+            ev = list((notes[0] or ("ev",))[1:])
+            sp = s_[2][si]
+            got_space = None if sp == NONE else (sp[2][0][1] if sp and sp[0] == "adt" and sp[1] == 1 and sp[2][0] else "?")
+            got = dict(push=ev.count("push"), evict=ev.count("evict"), space=got_space)
+            order_ok = ev.index("push") < ev.index("evict") if ("push" in ev and "evict" in ev) else True
+            # with the budget used up a row may also be turned away at once (never stored, nothing evicted): the same
+            # net effect as storing it and evicting it again
+            skipped = present and space == 0 and got == dict(push=0, evict=0, space=0)
+            if skipped and rv == OK(CONT):
+                continue
+            if got != want or rv != OK(CONT) or not order_ok:
+                problems.append("stored %d time(s), evicted %d, budget afterwards %s, answer %s; expected stored %d, "
+                                "evicted %d, budget %s, Continue%s" % (
+                                    got["push"], got["evict"], got["space"], "Continue" if rv == OK(CONT) else rv,
+                                    want["push"], want["evict"], want["space"],
+                                    "" if order_ok else " (eviction must follow the insertion)"))
+            else:
+                full.append(got)
+        if problems:
+            r.bad(key, problems[0], b.where())
+        elif not full:
+            r.bad(key, "no path stores the row: with the budget used up a row that belongs among the kept ones can never "
+                  "replace one of them", b.where())
         else:
-            r.ok(key, "stored %d, evicted %d, budget %s" % (got["push"], got["evict"], got["space"]), b.where())
+            r.ok(key, "stored %d, evicted %d, budget %s%s" % (full[0]["push"], full[0]["evict"], full[0]["space"],
+                                                              "" if len(outs) == 1 else " (%d paths)" % len(outs)),
+                 b.where())
 
 
 def sink_immediate(rep, lib, rid="C06-SINK-IMMEDIATE"):
